@@ -428,6 +428,15 @@ fn main() {
                 Ok(c) => do_table(name, c),
                 Err(_) => "bad-op".to_string(),
             },
+            // std::io::BufRead::split(b'\n') as the CLI uses it
+            ["S", h] => match unhex(h) {
+                Some(bs) => {
+                    let recs: Vec<Vec<u8>> = io::Cursor::new(bs).split(b'\n').map(|r| r.unwrap()).collect();
+                    let parts: Vec<String> = recs.iter().map(|r| if r.is_empty() { "-".to_string() } else { hex(r) }).collect();
+                    format!("ok {} {}", recs.len(), parts.join(","))
+                }
+                None => "bad-op".to_string(),
+            },
             ["N", k] => match k.parse::<usize>() {
                 Ok(k) => {
                     while slots.len() <= k {
